@@ -59,11 +59,42 @@ def chain_project(rng):
     return files, sites, {"alias": alias, "how": how, "levels": len(files)}
 
 
-def chain_cases(acc, probe, rng, count):
+def glued_project(rng):
+    """One file in which invocations touch the brace that opens the enclosing block (`b: {emit()}`), with the macro defined
+    before and after the block: at the first character of such a use two spans meet (the block's and the identifier's).
+    Sites are the first character, an inner character, and the definitions."""
+    early = rng.choice(["early", "first", "setup"]) + str(rng.randrange(10))
+    emit = rng.choice(["emit", "later", "flash"]) + str(rng.randrange(10))
+    sp = rng.choice(["", " "])
+    lines = [".macro %s() { nop }" % early,
+             "a: {%s()}" % early,
+             "b: {%s()}" % emit,
+             "c: {%s%s()%s}" % (sp, emit, sp),
+             ".if 1 {%s()}" % emit,
+             ".loop 2 {%s()}" % emit,
+             "d: {%s()}" % early,
+             ".macro %s() { inx }" % emit,
+             "e: {%s()}" % emit]
+    rng_lines = list(range(1, 7)) + [8]
+    sites = []
+    for ln in rng_lines:
+        sym = early if early in lines[ln] else emit
+        c0 = lines[ln].index(sym)
+        sites.append((sym, "main.asm", ln, c0, c0 + 1))
+        sites.append((sym, "main.asm", ln, c0 + 1, c0 + len(sym)))
+    sites.append((early, "main.asm", 0, 7, 7 + len(early)))
+    sites.append((emit, "main.asm", 7, 7, 7 + len(emit)))
+    rng.shuffle(sites)
+    return {"main.asm": "\n".join(lines) + "\n"}, sites[:8], {"alias": None, "how": "glued-to-brace", "levels": 1}
+
+
+def chain_cases(acc, probe, rng, count, project=chain_project):
     """Renames through import chains: judged by meaning (the edited project assembles to the same bytes without diagnostics,
     no edit has an empty text, the definition and the import statement carry the new name) and by the round trip."""
+    tag = "import-chain" if project is chain_project else "glued-to-brace"
+    viol = lambda sig, *rest: acc.violation(sig.replace("import-chain", tag), *rest)
     for _ in range(count):
-        files, sites, info = chain_project(rng)
+        files, sites, info = project(rng)
         pc = 0x2000
         base = build_outcome(probe, files, pc)
         if base[0] != "ok":
@@ -83,7 +114,7 @@ def chain_cases(acc, probe, rng, count):
                     acc.inconc("language server still computing after the extended watchdog")
                     break
                 if "dead" in prep or "timeout" in prep:
-                    acc.violation("server-died|prepareRename|import-chain", "no answer", dict(w, response=prep))
+                    viol("server-died|prepareRename|import-chain", "no answer", dict(w, response=prep))
                     return
                 if not prep.get("result"):
                     acc.count("chain.rename-not-offered")
@@ -94,30 +125,30 @@ def chain_cases(acc, probe, rng, count):
                     acc.inconc("language server still computing after the extended watchdog")
                     break
                 if "dead" in resp or "timeout" in resp:
-                    acc.violation("server-died|rename|import-chain", "no answer", w)
+                    viol("server-died|rename|import-chain", "no answer", w)
                     return
                 changes = (resp.get("result") or {}).get("changes")
                 if not changes:
-                    acc.violation("offered-but-no-edit|import-chain", "prepareRename offered %s but rename returned nothing" % sym, w)
+                    viol("offered-but-no-edit|import-chain", "prepareRename offered %s but rename returned nothing" % sym, w)
                     continue
                 if any(not e["newText"] for edits in changes.values() for e in edits):
-                    acc.violation("empty-edit|import-chain", "rename of %s returns an edit whose new text is empty" % sym, w)
+                    viol("empty-edit|import-chain", "rename of %s returns an edit whose new text is empty" % sym, w)
                     continue
                 try:
                     new_files = {name: apply_edits(files[name], changes.get(pr.uri(name), [])) for name in files}
                 except ValueError as e:
-                    acc.violation("malformed-edit|import-chain", str(e), w)
+                    viol("malformed-edit|import-chain", str(e), w)
                     continue
                 after = build_outcome(probe, new_files, pc)
                 if after != base:
-                    acc.violation("meaning-changed|import-chain|%s" % after[0], "after renaming %s to %s the project %s" % (
+                    viol("meaning-changed|import-chain|%s" % after[0], "after renaming %s to %s the project %s" % (
                         sym, new, "assembles differently" if after[0] == "ok" else "has diagnostics: %s" % (after[1],)), dict(w, edited=new_files))
                     continue
                 if sym in "".join(t for n_, t in new_files.items()).replace("lib_" + sym, "") and sym != "go":
-                    acc.violation("edit-set-incomplete|import-chain", "the old name %s is still there after the rename" % sym, dict(w, edited=new_files))
+                    viol("edit-set-incomplete|import-chain", "the old name %s is still there after the rename" % sym, dict(w, edited=new_files))
                     continue
                 acc.count("chain.renames_preserving_bytes")
-                acc.nontriv("chain", files["mid.asm"], files["main.asm"], sym, f, ln)
+                acc.nontriv("chain", files.get("mid.asm"), files["main.asm"], sym, f, ln, col)
                 acc.cover("chain_shapes", "%s/alias=%s/levels=%d" % (info["how"], bool(info["alias"]), info["levels"]))
                 if len(new) == len(sym):
                     pr.set_contents(new_files)
@@ -126,10 +157,10 @@ def chain_cases(acc, probe, rng, count):
                     try:
                         restored = {name: apply_edits(new_files[name], ch2.get(pr.uri(name), [])) for name in files}
                     except ValueError as e:
-                        acc.violation("malformed-edit|rename-back|import-chain", str(e), dict(w, response2=back))
+                        viol("malformed-edit|rename-back|import-chain", str(e), dict(w, response2=back))
                         continue
                     if restored != files:
-                        acc.violation("rename-back-does-not-restore|import-chain", "renaming %s back to %s does not restore the files" % (new, sym), dict(w, edited=new_files, restored=restored))
+                        viol("rename-back-does-not-restore|import-chain", "renaming %s back to %s does not restore the files" % (new, sym), dict(w, edited=new_files, restored=restored))
                         continue
                     acc.count("chain.round_trips_ok")
         finally:
@@ -142,6 +173,7 @@ def shard(idx, n, seed, tier, params):
     rng = rng_for(seed, "c15", idx)
     t_end = time.time() + params["budget"]
     chain_cases(acc, probe, rng, max(1, params["chains"] // n))
+    chain_cases(acc, probe, rng, max(1, params["glued"] // n), project=glued_project)
     for i in range(params["programs"] // n):
         if time.time() > t_end:
             acc.count("budget_cut")
@@ -286,7 +318,7 @@ def shard(idx, n, seed, tier, params):
 
 def main(tier, seed):
     t0 = time.time()
-    params = {"programs": 4000 if tier == "quick" else 80000, "chains": 64 if tier == "quick" else 1600, "per_program": 6, "budget": 90 if tier == "quick" else 1500}
+    params = {"programs": 4000 if tier == "quick" else 80000, "chains": 64 if tier == "quick" else 1600, "glued": 32 if tier == "quick" else 800, "per_program": 6, "budget": 90 if tier == "quick" else 1500}
     acc = run_sharded(shard, seed, tier, params)
     return finish(
         "C15", tier, seed, acc, t0,
@@ -297,7 +329,9 @@ def main(tier, seed):
              "without diagnostics, and - with a same-length name - renaming back at the same position must restore every file byte for "
              "byte. The buffers are re-sent before each request. In addition hand-built import chains (main -> [top ->] mid -> lib, specific "
              "imports with and without `as` below the root file, re-exported through `*`, `* as`, specific and aliased imports) are "
-             "renamed at every occurrence and judged by meaning, non-empty edits and the round trip. Non-trivial = distinct rename "
+             "renamed at every occurrence and judged by meaning, non-empty edits and the round trip; the same judgement for "
+             "one-file projects whose macro invocations touch the opening brace of the enclosing block (`b: {emit()}`, macro "
+             "defined before or after), asked at the first and at an inner character of the use. Non-trivial = distinct rename "
              "whose result preserved the bytes.",
         assumptions=["symbols with uses inside never-invoked macros or zero-iteration loops are not renamed by the check (the server cannot bind those uses)",
                      "new names are fresh; a name equal to one in an unrelated scope is not yet exercised"])
